@@ -494,9 +494,16 @@ type c05Slot struct{ addr, key, field string }
 // ELRONDroleesdt+tok, ELRONDnonce+tok of the tokens named in the input, in the caller, the recipient, the
 // address argument of NFT / multi transfer / create-role hand-over, or the shard's system account;
 // account-level functions: owner / user name / developer reward / balance of caller or recipient.
-func c05Footprint(cs *callSpec, pre map[string]*hAccount) func(x c05Cell) bool {
+func c05Footprint(w *hWorld, cs *callSpec, pre map[string]*hAccount) func(x c05Cell) bool {
 	set := map[c05Slot]bool{}
 	addK := func(addr []byte, key string) { set[c05Slot{string(addr), key, ""}] = true }
+	// an address ARGUMENT names an account of this shard only when the address lives here (otherwise the function must
+	// leave it to the travelling message)
+	addArgK := func(addr []byte, key string) {
+		if w.shardOf(addr) == cs.Shard {
+			addK(addr, key)
+		}
+	}
 	addF := func(addr []byte, field string) { set[c05Slot{string(addr), "", field}] = true }
 	a := cs.Args
 	caller, rcpt := cs.Caller, cs.Rcpt
@@ -548,7 +555,7 @@ func c05Footprint(cs *callSpec, pre map[string]*hAccount) func(x c05Cell) bool {
 		if len(a) >= 4 {
 			if origin {
 				addK(caller, nk(a[0], c05U64(a[1])))
-				addK(a[3], nk(a[0], c05U64(a[1])))
+				addArgK(a[3], nk(a[0], c05U64(a[1])))
 			} else {
 				addK(rcpt, nk(a[0], c05U64(a[1])))
 				if n, ok := payloadNonce(a[3]); ok {
@@ -560,7 +567,7 @@ func c05Footprint(cs *callSpec, pre map[string]*hAccount) func(x c05Cell) bool {
 		if origin {
 			for i := 2; i+2 < len(a); i += 3 {
 				addK(caller, nk(a[i], c05U64(a[i+1])))
-				addK(a[0], nk(a[i], c05U64(a[i+1])))
+				addArgK(a[0], nk(a[i], c05U64(a[i+1])))
 			}
 		} else {
 			for i := 1; i+2 < len(a); i += 3 {
@@ -577,8 +584,8 @@ func c05Footprint(cs *callSpec, pre map[string]*hAccount) func(x c05Cell) bool {
 			addK(rcpt, c05NP+string(a[0]))
 			addK(rcpt, c05R+string(a[0]))
 			if bytes.Equal(caller, vmcommon.ESDTSCAddress) && len(a) >= 2 {
-				addK(a[1], c05NP+string(a[0]))
-				addK(a[1], c05R+string(a[0]))
+				addArgK(a[1], c05NP+string(a[0]))
+				addArgK(a[1], c05R+string(a[0]))
 			}
 		}
 	case "ChangeOwnerAddress":
@@ -638,12 +645,19 @@ func c05MonFrame(c *ctx, w *hWorld, pre []map[string]*hAccount, sr *stepResult, 
 		c.count("c05/frame/no-change")
 		return
 	}
-	inFoot := c05Footprint(cs, pre[cs.Shard])
+	inFoot := c05Footprint(w, cs, pre[cs.Shard])
 	c.count("c05/frame/checked-calls")
 	for _, x := range cells {
 		c.count("c05/frame/changed-cells")
 		if x.Shard != cs.Shard {
 			c.fail("monitor", "frame/"+cs.Fn+"/other-shard", cs.Fn+" changed a shard it did not execute on: "+x.String(), c05Replay(sr, hist))
+			continue
+		}
+		// an account object appearing / changing on a shard where its address does not live (the system account exists on
+		// every shard; a caller / recipient whose presence the call itself asserts is that call's own business)
+		if x.Addr != string(vmcommon.SystemAccountAddress) && w.shardOf([]byte(x.Addr)) != x.Shard &&
+			!(x.Addr == string(cs.Caller) && cs.Snd) && !(x.Addr == string(cs.Rcpt) && cs.Dst) {
+			c.fail("monitor", "frame/"+cs.Fn+"/foreign-account", cs.Fn+" changed an account whose address does not live on the executing shard: "+x.String(), c05Replay(sr, hist))
 			continue
 		}
 		if inFoot(x) {
@@ -857,6 +871,32 @@ func c05Tour(c *ctx, u *universe, mons []c05Mon, nShards int, sysShard uint32, e
 		s.tx(A, A, "MultiESDTNFTTransfer", bigGas, K1, be(1), F, nil, be(1), []byte("fn"), []byte("z"))
 		s.tx(C, C, "MultiESDTNFTTransfer", bigGas, A, be(2), F, nil, be(1), S, be(1), be(1))
 		s.deliverAll()
+		// identifiers of DIFFERENT lengths in one multi-transfer (longer first, shorter first, mixed NFT / fungible), same
+		// shard and cross shard with delivery: a key buffer reused across the transfers shows only here
+		L := u.Fung[2]
+		srL := s.tx(A, A, "ESDTNFTCreate", bigGas, append([][]byte{L, be(9)}, uri...)...)
+		nL := []byte{1}
+		if c05OK(srL) && len(srL.Res.Out.ReturnData) == 1 {
+			nL = srL.Res.Out.ReturnData[0]
+		}
+		for _, dst := range [][]byte{C, B, D, K1} {
+			var call [][]byte
+			if bytes.Equal(dst, K1) {
+				call = [][]byte{[]byte("fn"), []byte("arg")}
+			}
+			mt := func(args ...[]byte) {
+				s.tx(A, A, "MultiESDTNFTTransfer", bigGas, append(append([][]byte{dst}, args...), call...)...)
+			}
+			mt(be(2), L, nil, be(3), F, nil, be(2))                              // long, short
+			mt(be(2), F, nil, be(2), L, nil, be(3))                              // short, long
+			mt(be(3), L, nL, be(1), F, nil, be(1), S, be(1), be(1))              // long NFT, short fungible, short NFT
+			mt(be(3), S, be(1), be(1), L, nL, be(1), G, nil, be(1))              // short NFT, long NFT, short fungible
+			mt(be(4), L, nil, be(1), G, nil, be(1), L, nL, be(1), F, nil, be(1)) // long, short, long, short
+			s.deliverAll()
+		}
+		s.tx(C, C, "MultiESDTNFTTransfer", bigGas, A, be(3), L, nil, be(2), G, nil, be(1), L, nL, be(1))
+		s.tx(C, C, "ESDTNFTTransfer", bigGas, L, nL, be(1), B)
+		s.deliverAll()
 		// system contract
 		s.sys(B, "ESDTFreeze", F)
 		s.tx(B, A, "ESDTTransfer", bigGas, F, be(1)) // rejected: frozen
@@ -975,7 +1015,7 @@ func init() {
 		u := newUniverse()
 		wide := c.thorough() || c.widen
 		runtime.GOMAXPROCS(1) // sequential run; exec reads runtime.MemStats around every call (stop-the-world)
-		c.rep.Rule = "Monitors on the real built-ins, after every executed call, over the complete before/after diff of every account on every shard (storage cells and balance/owner/user-name/developer-reward fields): (1) SaveKeyValue never changes a key with prefix ELROND, is accepted only for caller = recipient, non-contract, local caller, pair list without protected key, and leaves the caller's storage equal to the fold of the listed pairs (later pair wins, empty value deletes) with nothing else changed; (2) frame: every changed cell lies in footprint(call) = keys ELRONDesdt+tok+nonce / ELRONDroleesdt+tok / ELRONDnonce+tok of tokens named in the arguments (or destination-side payload), in caller, recipient, address argument (NFT / multi transfer destination, new create-role owner) or the shard's system account (pause flag), account-level functions only owner / user name / developer reward / balance; rejected calls change nothing. Families: SaveKeyValue enumeration (keys of every length 0..12 in every prefix relation to ELROND, case variants, live token / role / counter keys, values incl. empty and unchanged, 1-4 pairs with repeats, odd counts, 7 caller / presence / gas identities, 12 contract / near-contract caller shapes incl. VM-type bytes 05 00 judged by an oracle independent of IsSmartContractAddress); scripted tours of all 23 functions (origin and destination side, same and cross shard, deliveries) on 1-3 shard worlds with bystander holdings; explicit id‖nonce aliasing scenarios (F4a fixed, F4b known finding); random walks (all generator families). Every executed call can be re-evaluated in the Coq model (status + full post-state). distinct = distinct (world state, operation)."
+		c.rep.Rule = "Monitors on the real built-ins, after every executed call, over the complete before/after diff of every account on every shard (storage cells and balance/owner/user-name/developer-reward fields): (1) SaveKeyValue never changes a key with prefix ELROND, is accepted only for caller = recipient, non-contract, local caller, pair list without protected key, and leaves the caller's storage equal to the fold of the listed pairs (later pair wins, empty value deletes) with nothing else changed; (2) frame: every changed cell lies in footprint(call) = keys ELRONDesdt+tok+nonce / ELRONDroleesdt+tok / ELRONDnonce+tok of tokens named in the arguments (or destination-side payload), in caller, recipient, address argument (NFT / multi transfer destination, new create-role owner — only when that address lives on the executing shard; an account object changing on a shard where its address does not live is a frame failure) or the shard's system account (pause flag), account-level functions only owner / user name / developer reward / balance; rejected calls change nothing. Families: SaveKeyValue enumeration (keys of every length 0..12 in every prefix relation to ELROND, case variants, live token / role / counter keys, values incl. empty and unchanged, 1-4 pairs with repeats, odd counts, 7 caller / presence / gas identities, 12 contract / near-contract caller shapes incl. VM-type bytes 05 00 judged by an oracle independent of IsSmartContractAddress); scripted tours of all 23 functions (origin and destination side, same and cross shard, deliveries; multi-transfers mixing 16-byte and 10-byte token identifiers in every order, fungible and NFT) on 1-3 shard worlds with bystander holdings; explicit id‖nonce aliasing scenarios (F4a fixed, F4b known finding); random walks (all generator families). Every executed call can be re-evaluated in the Coq model (status + full post-state). distinct = distinct (world state, operation)."
 		c05SetExecStream(c, c05ProjState)
 		mons := []c05Mon{c05MonSaveKV, c05MonFrame}
 		c05SaveKVFamily(c, u, mons, wide)
